@@ -129,6 +129,19 @@ def check_roundtrip(rep, t, ns, r, ew, sec, enc, items, master=False):
           and obj.rge_ew == ew and obj.twp == f'{t}{ns}' and obj.rge == f'{r}{ew}' and obj.sec == f'{sec:02d}'
           and obj.twprge == f'{t}{ns}{r}{ew}' and TRS(obj.trs).trs == exp and TRS(obj.trs) == obj
           and hash(TRS(obj.trs)) == hash(obj) and pytrs.Tract('x', trs=exp).trs == exp)
+    # equal strings compare and hash equal also for an object that was hashed earlier and then re-set (setter / set_twprgesec)
+    o3 = TRS('1n1w01')
+    h_old = hash(o3)
+    in_set = {o3}
+    o3.trs = exp
+    o4 = TRS('2s2e02')
+    hash(o4)
+    o4.set_twprgesec(twp, rge, s_in, default_ns=dns, default_ew=dew)
+    for who, o in (('trs setter', o3), ('set_twprgesec', o4)):
+        if not (o == TRS(exp) and hash(o) == hash(TRS(exp)) and TRS(exp) in {o} and {o: 1}.get(TRS(exp)) == 1):
+            rep.violation('failing-input', {'call': f'hash / == after {who}', 'trs': exp, 'why': 'an object re-set to this string does not '
+                                            'compare and hash like a fresh TRS of the same string', 'observed': o.trs})
+            break
     if not ok:
         rep.violation('failing-input', {'call': 'from_twprgesec', 'twp': twp, 'rge': rge, 'sec': s_in,
                                         'default_ns': dns, 'default_ew': dew, 'defaults_via': 'MasterConfig' if master else 'keyword',
